@@ -260,8 +260,8 @@ theorem consensusChecks_noPanicSeq (x : Ctx) (hc : x.cfg.WF) (st : State) (i : I
 theorem partialChecks_noPanicSeq (x : Ctx) (st : State) (i : Input) (sh : Share) (m : PMsg)
     (hrole : validRole i.role = true) : NoPanicSeq (partialChecks x st i sh m) := by
   unfold partialChecks
-  refine ⟨noPanic_rejectIf _ _, fun hty => ⟨?_, fun _ => ⟨validatePartialMessages_noPanic _ _, fun _ =>
-    ⟨?_, fun _ => ⟨signatureFormat_noPanic _ _, fun _ => ⟨envSigCheck_noPanic _, fun _ => trivial⟩⟩⟩⟩⟩⟩
+  refine ⟨noPanic_rejectIf _ _, fun hty => ⟨?_, fun _ => ⟨noPanic_rejectIf _ _, fun _ => ⟨validatePartialMessages_noPanic _ _, fun _ =>
+    ⟨?_, fun _ => ⟨signatureFormat_noPanic _ _, fun _ => ⟨envSigCheck_noPanic _, fun _ => trivial⟩⟩⟩⟩⟩⟩⟩
   · obtain ⟨b, hb⟩ := partialTypeMatchesRole_of_validRole m.ptype i.role hrole
     rw [hb]; exact noPanic_rejectIf _ _
   · have hv : validPartialSigMsgType m.ptype = true := by
